@@ -2,6 +2,7 @@ package mc
 
 import (
 	"fmt"
+	"time"
 )
 
 // Cooperative, deviation(=preemption)-bounded stateless scheduler.
@@ -143,7 +144,13 @@ func (s *Sched) Run(bodies []func() []byte, prefix []int, setOn func(bool)) (*Ex
 	first := s.decide()
 	s.cur = first
 	s.threads[first].resume <- struct{}{}
-	<-s.finish
+	select {
+	case <-s.finish:
+	case <-time.After(CaseTimeout):
+		s.on = false
+		setOn(false)
+		return s.exec, TimeoutPrefix + "the scheduled execution did not finish (a thread never terminates under this schedule)"
+	}
 	setOn(false)
 	s.on = false
 	return s.exec, s.diverge
